@@ -46,7 +46,7 @@ func (e *Env) REntry() {
 		}
 	}
 	e.Run.Analysed("parser/format call sites", n)
-	e.Run.Floor("R-ENTRY", "parser/format call sites", n, 5)
+	e.Run.Floor("R-ENTRY", "parser/format call sites", n, 4)
 	// helper chains
 	pkg := e.Prog.Pkg(load.PkgDecorator)
 	c := e.Sib.Ctx[load.PkgDecorator]
@@ -202,20 +202,65 @@ func (e *Env) RFileScope() {
 		}
 		return true
 	})
+	// local closures that mark lines: `mark := func(start, end token.Pos) { ... avoid[line] = true ... }`
+	markers := map[types.Object]bool{}
+	var markerLits []*ast.FuncLit
+	ast.Inspect(lit.Body, func(nd ast.Node) bool {
+		as, ok := nd.(*ast.AssignStmt)
+		if !ok || as.Tok != token.DEFINE || len(as.Lhs) != 1 || len(as.Rhs) != 1 {
+			return true
+		}
+		fl, ok := as.Rhs[0].(*ast.FuncLit)
+		if !ok {
+			return true
+		}
+		marks := false
+		ast.Inspect(fl.Body, func(m ast.Node) bool {
+			if a2, ok := m.(*ast.AssignStmt); ok && len(a2.Lhs) == 1 && strings.HasPrefix(c.ExprStr(a2.Lhs[0]), "avoid[") {
+				marks = true
+			}
+			return true
+		})
+		if marks {
+			markers[info.Defs[as.Lhs[0].(*ast.Ident)]] = true
+			markerLits = append(markerLits, fl)
+		}
+		return true
+	})
+	inMarker := func(p token.Pos) bool {
+		for _, fl := range markerLits {
+			if fl.Pos() <= p && p < fl.End() {
+				return true
+			}
+		}
+		return false
+	}
 	n := 0
 	ast.Inspect(lit.Body, func(nd ast.Node) bool {
 		rs, ok := nd.(*ast.RangeStmt)
 		if !ok {
 			return true
 		}
-		// does the body store into avoid[...]?
+		// does the body store into avoid[...] — directly or through a local closure that does?
 		stores := false
 		ast.Inspect(rs.Body, func(m ast.Node) bool {
 			if as, ok := m.(*ast.AssignStmt); ok && len(as.Lhs) == 1 && strings.HasPrefix(c.ExprStr(as.Lhs[0]), "avoid[") {
 				stores = true
 			}
+			if call, ok := m.(*ast.CallExpr); ok {
+				if id, ok := call.Fun.(*ast.Ident); ok && markers[info.Uses[id]] {
+					stores = true
+				}
+			}
 			return true
 		})
+		// a loop inside a marking closure itself is not a loop over fragments
+		for obj := range markers {
+			_ = obj
+		}
+		if inMarker(rs.Pos()) {
+			return true
+		}
 		if !stores {
 			return true
 		}
@@ -288,7 +333,7 @@ func (e *Env) RFileScope() {
 			"the loop ranges over state that aggregates all files of a package; without a leading `if Fset.File(<fragment position>) != <file of astf> { continue }` line numbers of one file suppress line breaks of another (ParseDir)")
 		return true
 	})
-	e.Run.Floor("R-FILESCOPE", "line-marking loops in processFile", n, 2)
+	e.Run.Floor("R-FILESCOPE", "line-marking loops in processFile", n, 1)
 }
 
 // R-CLAUSESYM: wherever the attachment code distinguishes clause kinds, CaseClause and CommClause
